@@ -10,7 +10,8 @@
 EXTENDS Relational
 
 CONSTANTS MaxDepth,     \* number of operators applied on top of a base table
-          MaxRows,      \* rows per base table
+          MaxRows,      \* rows of base table t1
+          MaxRows2,     \* rows of base table t2
           NVals,        \* numeric values 1..NVals (plus "" if WithEmpty)
           WithEmpty,
           DevNoDedup    \* deviation for anti-vacuity: project keeps duplicates (as a bag would)
@@ -23,17 +24,18 @@ Vals == {VNum(i) : i \in 1..NVals} \cup (IF WithEmpty THEN {VEmpty} ELSE {})
 
 T1Cols == {"a", "b"}
 T2Cols == {"b", "c"}
-Tabs(C) == {S \in SUBSET [C -> Vals] : Cardinality(S) <= MaxRows}
+Tabs(C, n) == {S \in SUBSET [C -> Vals] : Cardinality(S) <= n}
 
 Tbl(n) == [op |-> "table", name |-> n]
 
 Const(v) == [k |-> "const", v |-> v]
 Col(c) == [k |-> "col", c |-> c]
-Preds(C) == {[k |-> "cmp", o |-> o, a |-> Col(c), b |-> Const(v)] :
-                 o \in {"is", "lt"}, c \in C, v \in {VNum(1), VNum(2)}}
+Preds(C) == {[k |-> "cmp", o |-> "is", a |-> Col(c), b |-> Const(VNum(1))] : c \in C}
+            \cup {[k |-> "cmp", o |-> "lt", a |-> Col(c), b |-> Const(VNum(2))] : c \in C}
 
 Where(x, p) == [op |-> "where", src |-> x, e |-> p]
-SetToSeq(S) == CHOOSE s \in [1..Cardinality(S) -> S] : Range(s) = S
+RECURSIVE SetToSeq(_)
+SetToSeq(S) == IF S = {} THEN <<>> ELSE LET x == CHOOSE y \in S : TRUE IN <<x>> \o SetToSeq(S \ {x})
 Project(x, C) == [op |-> "project", src |-> x, cols |-> SetToSeq(C)]
 Remove(x, C) == [op |-> "remove", src |-> x, cols |-> SetToSeq(C)]
 Rename(x, f, t) == [op |-> "rename", src |-> x, from |-> <<f>>, to |-> <<t>>]
@@ -63,7 +65,7 @@ Succ(x) ==
                    : t \in {"t1", "t2"}}
 
 Init == /\ db \in {[t1 |-> [cols |-> T1Cols, rows |-> r1], t2 |-> [cols |-> T2Cols, rows |-> r2]] :
-                       r1 \in Tabs(T1Cols), r2 \in Tabs(T2Cols)}
+                       r1 \in Tabs(T1Cols, MaxRows), r2 \in Tabs(T2Cols, MaxRows2)}
         /\ q \in {Tbl("t1"), Tbl("t2")}
         /\ depth = 0
         /\ cur = <<>>
